@@ -103,9 +103,12 @@ class C03(Property):
     RULE = ("records (linear and circular, length from smaller than to much larger than the distances) x gene layouts "
             "(both strands, touching / overlapping / nested / multi-exon / origin-spanning genes, gaps at cutoff-1, cutoff, "
             "cutoff+1 on the line and across the origin) x hit assignments over profiles {a,b,c,x} x rulesets of 1-4 rules "
-            "(mixed cutoffs and neighbourhoods, conditions single/and/or/cds/minimum, superiors, EXTENDERS); exhaustive "
-            "small family (ring/line of length 40, <= 4 genes on a 2-grid) in the thorough/deep tier; non-trivial = at least "
-            "two anchoring genes of one rule, or a superior/extender rule that fires; distinct by canonical input")
+            "(mixed cutoffs and neighbourhoods, conditions single/and/or/cds/minimum/negation, superiors, EXTENDERS), plus "
+            "structured scenarios (ancillary-only anchors, several cutoffs around the origin, chains through an origin-spanning "
+            "gene, superior covers/equals/inside/overlaps/adjacent, extender walks at cutoff-1/cutoff/cutoff+1); thorough/deep "
+            "tier: a tiny family enumerated completely (length 16, <= 4 genes on the 2-grid, line and ring, 5 cutoffs x 3 "
+            "neighbourhoods) and a sampled family on length 40; non-trivial = a chain of at least two anchoring genes, or "
+            "several chains with superiors/extenders in the ruleset; distinct by canonical input")
     TRUSTED = ["Record.get_cds_features_within_location is replaced by its specification (owned by C08); deviating calls are counted",
                "HMMER hit production (find_hmmer_hits, filter_results*) is not exercised: hits come from dynamic profiles",
                "Protocluster/CDSCollection constructor checks are modelled as the errors they raise; SecMetQualifier annotation is not observed",
@@ -114,6 +117,7 @@ class C03(Property):
 
     # ------------------------------------------------------------------ generators
     PROFS = ["a", "b", "c", "x"]
+    ALL_PROFS = ["a", "b", "c", "x", "y", "i", "s"]
 
     def rand_cond(self, rng: random.Random) -> Any:
         r = rng.random()
@@ -234,20 +238,166 @@ class C03(Property):
         rules = self.rand_rules(rng, cutoffs, nbhds)
         return {"len": length, "circ": circular, "genes": genes, "rules": rules}
 
+    def targeted_case(self, rng: random.Random) -> Dict[str, Any]:
+        """structured scenarios around the mechanisms of the property, with random sizes"""
+        kind = rng.choice(["ancillary-only", "multi-cutoff-origin", "chain-through-origin", "superior-cover", "extender-walk"])
+        c = rng.choice([3, 5, 20, 1000])
+        gl = rng.choice([1, 2, c // 2 + 1])
+        nb = rng.choice([0, 1, c, 3 * c])
+        A = lambda p: ["single", False, p]   # noqa: E731
+
+        def gene(lo: int, profs: str, strand: int = 1, ln: Optional[int] = None) -> Dict[str, Any]:
+            return {"loc": simple(lo, lo + (ln or gl), strand), "hits": [[p, 0] for p in profs], "hasres": True}
+        if kind == "ancillary-only":
+            # g1(a) .. g2(b) .. g3(c): g3 in reach of g2 only, rule `a and b and not c`: g2 anchors only as ancillary of g1
+            d12 = rng.choice([c - 1, c - 1, c, 1])
+            d23 = rng.choice([c - 1, c - 1, c, 0])
+            lo1 = rng.choice([0, 1, c])
+            g1 = gene(lo1, "a", rng.choice([1, -1]))
+            lo2 = lo1 + gl + d12
+            g2 = gene(lo2, "b", rng.choice([1, -1]))
+            lo3 = lo2 + gl + d23
+            g3 = gene(lo3, "c")
+            genes = [g1, g2, g3]
+            length = lo3 + gl + rng.choice([0, 1, c, 5 * c])
+            circ = rng.random() < 0.4
+            if circ:
+                length += 3 * c      # keep the far side out of reach
+            rules = [{"name": "r0", "cutoff": c, "nbhd": nb,
+                      "cond": ["conj", [A("a"), A("b"), ["single", True, "c"]]], "sup": [], "ext": None}]
+            if rng.random() < 0.5:
+                rules.append({"name": "r1", "cutoff": rng.choice([c, 2 * c + gl + 1]), "nbhd": nb,
+                              "cond": rng.choice([["minimum", False, 2, ["a", "b"]], A("b")]), "sup": rng.choice([[], ["r0"]]), "ext": None})
+        elif kind == "multi-cutoff-origin":
+            # two genes either side of the origin of a ring, rules of up to three different cutoffs
+            length = rng.choice([8 * c, 20 * c, 5 * c + 1])
+            k = rng.choice([1, c // 2, c - 2 - gl]) if c > 3 else 1
+            k = max(k, 0)
+            g1 = gene(length - gl - k, "a")
+            g2 = gene(rng.choice([k, 0, 1, max(c - 2 * k - 2, 0)]), "b")
+            genes = [g1, g2] + ([gene(length // 2, rng.choice(["a", "b", "ab"]))] if rng.random() < 0.5 else [])
+            cuts = [rng.choice([c * 2, c, max(c // 4, 1), 1]) for _ in range(rng.choice([2, 3, 4]))]
+            cond = rng.choice([["conj", [A("a"), A("b")]], ["minimum", False, 2, ["a", "b"]], ["cds", False, [A("a"), A("b")]]])
+            rules = [{"name": f"r{i}", "cutoff": cu, "nbhd": nb, "cond": cond, "sup": [], "ext": None} for i, cu in enumerate(cuts)]
+            circ = True
+        elif kind == "chain-through-origin":
+            # an origin-spanning anchor plus anchors at chosen gaps before / after it, and far ones
+            length = rng.choice([12 * c, 30 * c, 7 * c + 3]) + 4 * gl
+            up = rng.choice([1, gl, c])
+            down = rng.choice([1, gl, c])
+            strand = rng.choice([1, -1])
+            parts = [[length - up, length, 1], [0, down, 1]] if strand == 1 else [[0, down, -1], [length - up, length, -1]]
+            genes = [{"loc": compound(parts), "hits": [["a", 0]], "hasres": True}]
+            pos = down
+            for _ in range(rng.choice([0, 1, 2])):
+                pos += rng.choice([c - 1, c, c + 1, 0])
+                genes.append(gene(pos, "a", rng.choice([1, -1])))
+                pos += gl
+            pos = length - up
+            for _ in range(rng.choice([1, 2, 3])):
+                pos -= rng.choice([c - 1, c, c + 1, 0]) + gl
+                if pos > length // 2:
+                    genes.append(gene(pos, "a", rng.choice([1, -1])))
+            if rng.random() < 0.6:
+                genes.append(gene(length // 2 - gl, "a"))
+            rules = [{"name": "r0", "cutoff": c, "nbhd": nb, "cond": A("a"), "sup": [], "ext": None}]
+            circ = True
+        elif kind == "superior-cover":
+            # an inferior chain and a superior chain that covers / equals / is inside / merely overlaps it
+            lo = rng.choice([0, c, 3 * c])
+            inner = [gene(lo + i * (gl + c - 1), "i") for i in range(rng.choice([1, 2, 3]))]
+            mode = rng.choice(["cover", "equal", "inside", "overlap", "adjacent", "apart"])
+            for i, g in enumerate(inner):
+                if mode in ("cover", "equal") or (mode == "inside" and i == len(inner) // 2) or (mode == "overlap" and i == 0):
+                    g["hits"].append(["s", 0])
+            genes = list(inner)
+            end = lo + len(inner) * (gl + c - 1)
+            if mode == "cover":
+                genes.append(gene(end, "s"))
+            if mode == "overlap":
+                genes.insert(0, gene(max(lo - c + 1 - gl, 0), "s")) if lo >= c else None
+            if mode == "adjacent":
+                genes.append(gene(end, "s"))
+            if mode == "apart":
+                genes.append(gene(end + 3 * c, "s"))
+            length = end + 5 * c + gl
+            circ = rng.random() < 0.3
+            rules = [{"name": "sup", "cutoff": c, "nbhd": nb, "cond": A("s"), "sup": [], "ext": None},
+                     {"name": "inf", "cutoff": c, "nbhd": rng.choice([nb, 0]), "cond": A("i"), "sup": ["sup"], "ext": None}]
+            if rng.random() < 0.3:
+                rules.reverse()
+        else:
+            # EXTENDERS: anchors in the middle, extendable genes at <= cutoff, == cutoff, cutoff + 1 on both sides
+            lo = 3 * c + 3 * gl
+            genes = [gene(lo, "a")]
+            pos = lo + gl
+            for _ in range(rng.choice([1, 2, 3])):
+                pos += rng.choice([c - 1, c, c + 1, 0])
+                genes.append(gene(pos, rng.choice(["x", "x", "y", "xy", "b"])))
+                pos += gl
+            end = pos
+            pos = lo
+            for _ in range(rng.choice([1, 2, 3])):
+                pos -= rng.choice([c - 1, c, c + 1, 0]) + gl
+                if pos >= 0:
+                    genes.append(gene(pos, rng.choice(["x", "x", "y", "xy", "b"])))
+            length = end + rng.choice([0, c, 4 * c])
+            circ = rng.random() < 0.4
+            ext = rng.choice([A("x"), ["cds", False, [A("x"), A("y")]], ["cds", False, [["conj", [A("x"), A("y")]]]]])
+            rules = [{"name": "r0", "cutoff": c, "nbhd": nb, "cond": A("a"), "sup": [], "ext": ext}]
+        seen, out = set(), []
+        for g in genes:
+            if g is None:
+                continue
+            key = repr(g["loc"]["parts"])
+            inside = all(0 <= p[0] < p[1] <= length for p in g["loc"]["parts"])
+            if key not in seen and inside:
+                seen.add(key)
+                out.append(g)
+        rng.shuffle(out)
+        for n, g in enumerate(out):
+            g["n"] = n
+        return {"len": max(length, 1), "circ": circ, "genes": out, "rules": rules}
+
     def cases(self, rng: random.Random, tier: str, deep: bool) -> Iterator[Dict[str, Any]]:
-        n_random = 60000 if deep else 7000
+        n_random = 50000 if deep else 6000
+        for _ in range(n_random // 5):
+            case = self.targeted_case(rng)
+            if case["genes"]:
+                yield case
         for _ in range(n_random):
             yield self.random_case(rng)
         if deep:
             yield from self.small_scope(rng, full=(tier == "thorough"))
 
     def small_scope(self, rng: random.Random, full: bool) -> Iterator[Dict[str, Any]]:
-        """ring/line of length 40, <= 4 genes of length 2 or 4 on a 2-grid (incl. touching, overlapping and one
-            origin-spanning gene), all with profile `a`; rules: r0 = a (cutoff 6), r1 = a (cutoff 4, superior r0 or
-            extender), neighbourhoods {1, 10}"""
+        """(A) exhaustive tiny family: line/ring of length 16, every set of <= 4 genes [2k, 2k+2) (on a ring also
+            with the origin-spanning gene [15,16)+[0,1) when slots 0 and 7 are free), all anchoring with profile `a`, one rule
+            `a` with every cutoff in {1,2,3,5,7} x neighbourhood in {0,1,6}: enumerated completely.
+            (B) sampled family on length 40 (<= 4 genes of length 2/4, both strands, superiors / extender rulesets)."""
+        total = 0
+        length = 16
+        slots = list(range(0, length, 2))
+        subsets = [c for k in (1, 2, 3, 4) for c in itertools.combinations(slots, k)]
+        if not full:
+            subsets = rng.sample(subsets, 40)
+        for starts in subsets:
+            for circ in (False, True):
+                variants = [[simple(s, s + 2) for s in starts]]
+                if circ and 0 not in starts and slots[-1] not in starts:
+                    variants.append(variants[0] + [compound([[length - 1, length, 1], [0, 1, 1]])])
+                for locs in variants:
+                    for cutoff in (1, 2, 3, 5, 7):
+                        for nb in (0, 1, 6):
+                            genes = [{"n": n, "loc": loc, "hits": [["a", 0]], "hasres": True} for n, loc in enumerate(locs)]
+                            total += 1
+                            yield {"len": length, "circ": circ, "genes": genes,
+                                   "rules": [{"name": "r0", "cutoff": cutoff, "nbhd": nb, "cond": ["single", False, "a"],
+                                              "sup": [], "ext": None}]}
+        self.exhaustive_done = full
+        exhaustive_total = total
         length = 40
         slots = list(range(0, length, 2))
-        total = 0
         rulesets = []
         for nb in (1, 10):
             rulesets.append([{"name": "r0", "cutoff": 6, "nbhd": nb, "cond": ["single", False, "a"], "sup": [], "ext": None}])
@@ -257,10 +407,9 @@ class C03(Property):
         layouts: List[List[Dict[str, Any]]] = []
         for k in (1, 2, 3, 4):
             combos = list(itertools.combinations(slots, k))
-            if not full and len(combos) > 400:
-                combos = rng.sample(combos, 400)
-            elif full and len(combos) > 2500:
-                combos = rng.sample(combos, 2500)
+            limit = 1500 if full else 300
+            if len(combos) > limit:
+                combos = rng.sample(combos, limit)
             for starts in combos:
                 glens = [rng.choice([2, 4]) for _ in starts]
                 genes = [{"loc": simple(s, min(s + gl, length), rng.choice([1, -1]))} for s, gl in zip(starts, glens)]
@@ -282,8 +431,9 @@ class C03(Property):
                             out.append({"n": n, "loc": g["loc"], "hits": [[p, 0] for p in sorted(set(prof))], "hasres": True})
                         total += 1
                         yield {"len": length, "circ": circ, "genes": out, "rules": rules}
-        self.exhaustive_done = full
-        self.extra_coverage = {"small_scope_cases": total}
+        self.extra_coverage = {"small_scope_cases": total, "exhaustive_family_cases": exhaustive_total,
+                               "exhaustive_family": "length 16, <= 4 genes on the 2-grid (+ origin-spanning gene), line and ring, "
+                                                    "cutoff in {1,2,3,5,7} x neighbourhood in {0,1,6}" if full else "sampled"}
 
     # ------------------------------------------------------------------ implementation adapter
     def build(self, case: Dict[str, Any]) -> Tuple[Any, Any]:
@@ -292,7 +442,7 @@ class C03(Property):
         rec = spec_lookup_record_class()(length=case["len"], circular=case["circ"])
         for g in case["genes"]:
             rec.add_cds_feature(common.dummy_cds(g["loc"], f"g{g['n']}"))
-        profs = sorted({p for g in case["genes"] for p, _ in g["hits"]} | set(self.PROFS))
+        profs = sorted({p for g in case["genes"] for p, _ in g["hits"]} | set(self.ALL_PROFS))
         table: Dict[str, Dict[str, List[Any]]] = {p: {} for p in profs}
         for g in case["genes"]:
             name = f"g{g['n']}"
@@ -375,6 +525,9 @@ class C03(Property):
         detail = "" if corr else f"model {model} vs implementation {obs['clusters']}"
         spec_ok = bool(spec["ok"]) or not wf
         known = (spec.get("known") or None) if not spec_ok else None
+        if spec_ok and not corr and spec.get("model_known"):
+            # inside a recorded defect class the implementation may be better than the model (a later repair)
+            known = spec["model_known"]
         if not spec_ok:
             detail = f"spec: {spec['why']}; implementation {obs['clusters']}" + ("; " + detail if detail else "")
         n = len(obs["clusters"])
